@@ -173,8 +173,11 @@ class uamiv(ioapi_base):
         self.SDATE, self.STIME = self.variables['TFLAG'][0, 0, :]
         self.TSTEP = etflagv[0, 0, 1] - tflagv[0, 0, 1]
         if etflagv[0, 0, 0] != tflagv[0, 0, 0]:
-            # the first step ends on the next day
-            self.TSTEP = self.TSTEP + 240000
+            # the first step ends on a later day: add 24 h per day
+            from datetime import datetime
+            day0 = datetime.strptime(str(tflagv[0, 0, 0]), '%Y%j')
+            day1 = datetime.strptime(str(etflagv[0, 0, 0]), '%Y%j')
+            self.TSTEP = self.TSTEP + 240000 * (day1 - day0).days
         if P_ALP is not None:
             self.P_ALP = P_ALP
         if P_BET is not None:
